@@ -78,6 +78,20 @@ fn c04_entry_remove() -> Result<(), String> {
     Ok(())
 }
 
+fn c04_entry_remove_reinsert() -> Result<(), String> {
+    // the OccupiedEntry handle survives remove(&mut self); re-wrapping it stores a value without counting it
+    let mut m: PrefixMap<P, u8> = PrefixMap::new();
+    m.insert((0x80, 1), 1);
+    if let map::Entry::Occupied(mut e) = m.entry((0x80, 1)) {
+        e.remove();
+        map::Entry::Occupied(e).or_insert(7);
+    }
+    if m.len() != m.iter().count() {
+        return Err(format!("after e.remove(); Entry::Occupied(e).or_insert(7): len()={} iter().count()={}", m.len(), m.iter().count()));
+    }
+    Ok(())
+}
+
 fn c04_view_remove() -> Result<(), String> {
     let mut m: PrefixMap<P, u8> = PrefixMap::new();
     m.insert((0x80, 1), 1);
@@ -189,6 +203,7 @@ fn main() {
         ("c16_leak", c16_leak),
         ("c19_eq_prefix", c19_eq_prefix),
         ("c04_entry_remove", c04_entry_remove),
+        ("c04_entry_remove_reinsert", c04_entry_remove_reinsert),
         ("c04_view_remove", c04_view_remove),
         ("c04_view_set", c04_view_set),
         ("c20_counter_underflow", c20_counter_underflow),
